@@ -152,11 +152,12 @@ PROPS['C01'] = {
 PROPS['C17'] = {
     'title': 'PreparedGeometry answers exactly like the plain geometry',
     'level': 'proof',
-    'verus': [],
+    'verus': ['c17_prepared'],
     'kani': [
         ('geo', 'geomgraph.rs', r'^c17_k_', 'complete', 'quick'),
     ],
-    'trusted': ['only the label-swap algebra that PreparedGeometry relies on when a cached graph is reused in the other argument position is under contract (finite domain, complete)'],
+    'trusted': ['the label-swap algebra that PreparedGeometry relies on when a cached graph is reused in the other argument position (finite domain, complete)',
+                'Verus unit c17_prepared: PreparedGeometry is a faithful wrapper -- is_empty / dimensions / boundary_dimensions answer what the wrapped geometry answers, bounding_rect returns the cached rectangle, and prepare_geometry caches the wrapped geometry\'s own bounding rectangle; GeometryGraph / GeometryCow are abstract there (assumed: GeometryGraph::new remembers its geometry, build_tree / set_tree / compute_self_nodes do not change it)'],
     'undecided_clauses': [
         'PlanarGraph / GeometryGraph::clone_for_arg_index deep-copy and frame across Rc<RefCell> (CBMC does not finish symbolic execution of the BTreeMap node map within 600 s even for one edge)',
         'equivalence of the R-tree edge-set intersector with the all-pairs intersector; whole-pipeline equality of prepared and plain relate',
